@@ -5,7 +5,10 @@
 //! BASIC program (one statement per operation under `ON ERROR GOTO h` / `RESUME NEXT`), checked
 //! against a model of the store and of the handle table written from the property statement.
 //! A sample of the protocol violations is also observed without a handler, as the last statement
-//! of its own program. Generator 2: the same byte stream read once through a file and once
+//! of its own program. An open RANDOM file may get several FIELD statements (overlays of the record
+//! buffer with variables and widths of their own, or an earlier FIELD once more); records are then
+//! composed through any of the lists and GET must fill the variables of every list from the first
+//! byte of the record. Generator 2: the same byte stream read once through a file and once
 //! through standard input by the same sequence of INPUT / LINE INPUT statements.
 
 use std::collections::BTreeMap;
@@ -25,6 +28,8 @@ const NODIR: usize = 3;
 const NODIR_DIR: &str = "c18nodir";
 const ZONE: usize = 14;
 const MAX_COL: usize = 40;
+/// FIELD lists with variables of their own per open RANDOM file
+const MAX_LISTS: usize = 3;
 
 const SIG_PRINT_PANIC: &str = "print#-bad-handle:panic:File-not-found-expect";
 const SIG_FIELD_SEQ: &str = "field:sequential-handle:no-error";
@@ -106,8 +111,11 @@ enum Op {
     Close(Vec<usize>),
     Kill { name: usize },
     Name { from: usize, to: usize },
-    Field { h: usize, widths: Vec<usize> },
-    Lset { h: usize, idx: usize, val: String },
+    /// `list` says which set of variables the statement names: the number of lists declared so far
+    /// on the handle = a NEW list (an overlay of the same record buffer, variables of its own), a
+    /// smaller number = that earlier FIELD statement once more (same variables, same widths)
+    Field { h: usize, widths: Vec<usize>, list: usize },
+    Lset { h: usize, list: usize, idx: usize, val: String },
     Put { h: usize, rec: i64 },
     Get { h: usize, rec: i64 },
 }
@@ -146,13 +154,18 @@ fn fmt_num(n: i64) -> String {
     if n < 0 { format!("{} ", n) } else { format!(" {} ", n) }
 }
 
-fn field_var(h: usize, idx: usize) -> String {
-    format!("f{}{}$", h + 1, (b'a' + idx as u8) as char)
+/// Variable `idx` of FIELD list `list` of handle `h` (list 0 keeps the historical names).
+fn field_var(h: usize, list: usize, idx: usize) -> String {
+    if list == 0 {
+        format!("f{}{}$", h + 1, (b'a' + idx as u8) as char)
+    } else {
+        format!("f{}{}{}$", h + 1, (b'a' + idx as u8) as char, list)
+    }
 }
 
 /// Statement text of an operation; `k` is the 1-based position (used for fresh variable names).
 /// Returns (statement, optional statement that prints the values read).
-fn render_op(op: &Op, k: usize, nfields: usize) -> (String, Option<String>) {
+fn render_op(op: &Op, k: usize, nfields: usize, show: &[(usize, usize)]) -> (String, Option<String>) {
     match op {
         Op::Open { h, name, mode, len } => {
             let tail = if *mode == Mode::Random { format!(" LEN = {}", len) } else { String::new() };
@@ -190,19 +203,20 @@ fn render_op(op: &Op, k: usize, nfields: usize) -> (String, Option<String>) {
         }
         Op::Kill { name } => (format!("KILL \"{}\"", NAMES[*name]), None),
         Op::Name { from, to } => (format!("NAME \"{}\" AS \"{}\"", NAMES[*from], NAMES[*to]), None),
-        Op::Field { h, widths } => {
+        Op::Field { h, widths, list } => {
             // a FIELD that the model expects to fail (nfields == 0) uses variables of its own
             let parts: Vec<String> = widths
                 .iter()
                 .enumerate()
-                .map(|(i, w)| if nfields == 0 { format!("{} AS fx{}{}$", w, k, (b'a' + i as u8) as char) } else { format!("{} AS {}", w, field_var(*h, i)) })
+                .map(|(i, w)| if nfields == 0 { format!("{} AS fx{}{}$", w, k, (b'a' + i as u8) as char) } else { format!("{} AS {}", w, field_var(*h, *list, i)) })
                 .collect();
             (format!("FIELD #{}, {}", h + 1, parts.join(", ")), None)
         }
-        Op::Lset { h, idx, val } => (format!("LSET {} = \"{}\"", field_var(*h, *idx), val), None),
+        Op::Lset { h, list, idx, val } => (format!("LSET {} = \"{}\"", field_var(*h, *list, *idx), val), None),
         Op::Put { h, rec } => (format!("PUT #{}, {}", h + 1, rec), None),
         Op::Get { h, rec } => {
-            let show = (0..nfields).map(|i| format!("{}; \"]", field_var(*h, i))).collect::<Vec<_>>().join("[\"; ");
+            // every variable of every FIELD list of the handle
+            let show = show.iter().map(|(l, i)| format!("{}; \"]", field_var(*h, *l, *i))).collect::<Vec<_>>().join("[\"; ");
             let v = if nfields == 0 { None } else { Some(format!("PRINT \"V{}[\"; {}\"", k, show)) };
             (format!("GET #{}, {}", h + 1, rec), v)
         }
@@ -239,12 +253,65 @@ struct Hd {
     /// print column (Output/Append); None = not determined
     col: Option<usize>,
     reclen: usize,
-    fields: Option<Vec<usize>>,
-    /// current values of the field variables (None: never assigned in this session)
-    buf: Vec<Option<Vec<u8>>>,
-    /// record number -> (field values at PUT time, sequence number of the PUT)
-    recs: BTreeMap<i64, (Vec<Vec<u8>>, u64)>,
+    /// FIELD lists declared in this session (widths); every list describes the record buffer from
+    /// its first byte (documented: any number of FIELD statements may be in effect for one file)
+    lists: Vec<Vec<usize>>,
+    /// FIELD statements executed in this session (repeats included)
+    field_stmts: usize,
+    /// per variable: it was assigned (LSET / GET) after every LSET through an overlapping variable
+    /// of another list, i.e. its own value is what the record buffer holds at its position
+    fresh: Vec<Vec<bool>>,
+    /// the list addressed by the latest LSET, or declared by a later FIELD
+    cur: Option<usize>,
+    /// the record buffer (QBasic: one buffer per file, all field variables are windows of it)
+    rbuf: Vec<Cell>,
+    /// record number -> (record as PUT, sequence number of the PUT)
+    recs: BTreeMap<i64, (Vec<Cell>, u64)>,
     puts: u64,
+}
+
+/// One byte of a record buffer as far as the statement pins it.
+#[derive(Clone, Copy, PartialEq, Eq, Debug, Hash)]
+enum Cell {
+    B(u8),
+    /// padding of a value shorter than its field (blank in QBasic, NUL here: not pinned which)
+    Pad,
+    /// not pinned
+    Any,
+}
+
+const MASK_PAD: u8 = 1;
+const MASK_ANY: u8 = 2;
+
+fn cells_to_mask(c: &[Cell]) -> Vec<u8> {
+    c.iter()
+        .map(|x| match x {
+            Cell::B(b) => *b,
+            Cell::Pad => MASK_PAD,
+            Cell::Any => MASK_ANY,
+        })
+        .collect()
+}
+
+fn lset_cells(val: &[u8], width: usize) -> Vec<Cell> {
+    (0..width).map(|i| if i < val.len() { Cell::B(val[i]) } else { Cell::Pad }).collect()
+}
+
+impl Hd {
+    fn offset(&self, list: usize, idx: usize) -> usize {
+        self.lists[list][..idx].iter().sum()
+    }
+    fn total(&self, list: usize) -> usize {
+        self.lists[list].iter().sum()
+    }
+    /// (list, idx) of every field variable, in declaration order
+    fn all_vars(&self) -> Vec<(usize, usize)> {
+        self.lists.iter().enumerate().flat_map(|(l, w)| (0..w.len()).map(move |i| (l, i))).collect()
+    }
+    fn var_cells(&self, list: usize, idx: usize) -> &[Cell] {
+        let o = self.offset(list, idx);
+        &self.rbuf[o..o + self.lists[list][idx]]
+    }
 }
 
 /// Which error the statement demands.
@@ -295,6 +362,9 @@ enum Cmp {
     RTrim,
     /// trailing blanks / NULs are not pinned (field padding of RANDOM records)
     Pad,
+    /// byte by byte: MASK_PAD = blank or NUL, MASK_ANY = any byte, else exactly that byte; bytes
+    /// missing at the end count as padding (a field variable of a RANDOM record)
+    Mask,
 }
 
 #[derive(Clone, Debug)]
@@ -312,8 +382,10 @@ struct Outcome {
     class: String,
     /// protocol violation kind, if this operation is one
     viol: Option<String>,
-    /// number of FIELD variables printed after a GET
+    /// number of FIELD variables printed after a GET (0 for a FIELD = it is expected to fail)
     nfields: usize,
+    /// (list, idx) of the variables printed after a GET
+    show: Vec<(usize, usize)>,
     /// a successful operation that moved data or opened a file (counts as "further successful operation")
     substantive: bool,
 }
@@ -323,6 +395,8 @@ struct Chains {
     write_reopen_read: bool,
     append_after_output: bool,
     put_get_interleaved: bool,
+    /// a GET filled variables of two or more FIELD lists of the handle
+    get_through_overlay: bool,
     violation_then_success: bool,
     violations: u32,
     two_readers_same_file: bool,
@@ -419,11 +493,11 @@ fn small_int(field: &[u8]) -> Option<i64> {
 }
 
 fn ok_outcome(class: String, substantive: bool) -> Outcome {
-    Outcome { err: None, vals: vec![], class, viol: None, nfields: 0, substantive }
+    Outcome { err: None, vals: vec![], class, viol: None, nfields: 0, show: vec![], substantive }
 }
 
 fn err_outcome(kind: &str, situation: &str, e: ErrSet) -> Outcome {
-    Outcome { err: Some(e), vals: vec![], class: format!("{}:{}", kind, situation), viol: Some(format!("{}:{}", kind, situation)), nfields: 0, substantive: false }
+    Outcome { err: Some(e), vals: vec![], class: format!("{}:{}", kind, situation), viol: Some(format!("{}:{}", kind, situation)), nfields: 0, show: vec![], substantive: false }
 }
 
 impl Model {
@@ -478,7 +552,7 @@ impl Model {
                     }
                     self.chains.two_readers_same_file = true;
                 }
-                let mut hd = Hd { name: *name, mode: *mode, pos: 0, col: None, reclen: *len, fields: None, buf: vec![], recs: BTreeMap::new(), puts: 0 };
+                let mut hd = Hd { name: *name, mode: *mode, pos: 0, col: None, reclen: *len, lists: vec![], field_stmts: 0, fresh: vec![], cur: None, rbuf: vec![Cell::Any; *len], recs: BTreeMap::new(), puts: 0 };
                 match mode {
                     Mode::Input => match &self.files[*name] {
                         None => return Ok(err_outcome(kind, "missing-file", ErrSet::Exact(53))),
@@ -592,7 +666,7 @@ impl Model {
                     self.chains.write_reopen_read = true;
                 }
                 let class = format!("{}:{}", kind, if vars.len() == 1 { "one-variable" } else { "several-variables" });
-                Ok(Outcome { err: None, vals, class, viol: None, nfields: 0, substantive: true })
+                Ok(Outcome { err: None, vals, class, viol: None, nfields: 0, show: vec![], substantive: true })
             }
             Op::LineInput { h } => {
                 let Some(hd) = self.hd[*h].as_mut() else {
@@ -613,7 +687,7 @@ impl Model {
                             self.chains.write_reopen_read = true;
                         }
                         let class = format!("{}:{}", kind, if mid_line { "rest-of-line" } else { "whole-line" });
-                        Ok(Outcome { err: None, vals: vec![ValSpec { cmp: Cmp::Exact, text: v }], class, viol: None, nfields: 0, substantive: true })
+                        Ok(Outcome { err: None, vals: vec![ValSpec { cmp: Cmp::Exact, text: v }], class, viol: None, nfields: 0, show: vec![], substantive: true })
                     }
                 }
             }
@@ -630,7 +704,7 @@ impl Model {
                 let Content::Known(bytes) = &f.content else { return Err("read of unknown content") };
                 let at_end = hd.pos >= bytes.len();
                 let class = format!("{}:{}", kind, if at_end { "true" } else { "false" });
-                Ok(Outcome { err: None, vals: vec![ValSpec { cmp: Cmp::Exact, text: fmt_num(if at_end { -1 } else { 0 }).into_bytes() }], class, viol: None, nfields: 0, substantive: false })
+                Ok(Outcome { err: None, vals: vec![ValSpec { cmp: Cmp::Exact, text: fmt_num(if at_end { -1 } else { 0 }).into_bytes() }], class, viol: None, nfields: 0, show: vec![], substantive: false })
             }
             Op::Close(v) => {
                 let mut any = false;
@@ -685,33 +759,63 @@ impl Model {
                 self.files[*to] = Some(f);
                 Ok(ok_outcome(format!("{}:ok", kind), true))
             }
-            Op::Field { h, widths } => {
+            Op::Field { h, widths, list } => {
                 let Some(hd) = self.hd[*h].as_mut() else {
                     return Ok(err_outcome(kind, "closed-handle", ErrSet::FileError));
                 };
                 if hd.mode != Mode::Random {
                     return Ok(err_outcome(kind, "sequential-handle", ErrSet::FileError));
                 }
-                if hd.fields.is_some() {
-                    return Err("second FIELD on the same open file");
-                }
                 if widths.iter().sum::<usize>() > hd.reclen || widths.is_empty() {
                     return Err("FIELD wider than the record");
                 }
-                hd.fields = Some(widths.clone());
-                hd.buf = vec![None; widths.len()];
-                let mut o = ok_outcome(format!("{}:ok", kind), true);
+                let situation = if *list < hd.lists.len() {
+                    // the same FIELD statement once more: same variables, same layout
+                    if hd.lists[*list] != *widths {
+                        return Err("FIELD that gives variables of an earlier FIELD another layout");
+                    }
+                    "repeated"
+                } else if *list == hd.lists.len() && hd.lists.len() < MAX_LISTS {
+                    hd.lists.push(widths.clone());
+                    hd.fresh.push(vec![false; widths.len()]);
+                    if *list == 0 { "ok" } else { "overlay" }
+                } else {
+                    return Err("FIELD list number out of sequence");
+                };
+                hd.field_stmts += 1;
+                hd.cur = Some(*list);
+                let mut o = ok_outcome(format!("{}:{}", kind, situation), true);
                 o.nfields = widths.len();
                 Ok(o)
             }
-            Op::Lset { h, idx, val } => {
+            Op::Lset { h, list, idx, val } => {
                 let Some(hd) = self.hd[*h].as_mut() else { return Err("LSET of a field variable of a closed file") };
-                let Some(fields) = &hd.fields else { return Err("LSET without FIELD") };
-                if hd.mode != Mode::Random || *idx >= fields.len() || val.len() > fields[*idx] {
+                if hd.lists.is_empty() {
+                    return Err("LSET without FIELD");
+                }
+                if hd.mode != Mode::Random || *list >= hd.lists.len() || *idx >= hd.lists[*list].len() || val.len() > hd.lists[*list][*idx] {
                     return Err("LSET of a value longer than the field");
                 }
-                hd.buf[*idx] = Some(val.as_bytes().to_vec());
-                let class = format!("{}:{}", kind, if val.len() == fields[*idx] { "full-width" } else { "shorter-than-field" });
+                let w = hd.lists[*list][*idx];
+                let off = hd.offset(*list, *idx);
+                let cells = lset_cells(val.as_bytes(), w);
+                hd.rbuf[off..off + w].copy_from_slice(&cells);
+                // windows of other lists onto these bytes no longer hold "their own" value
+                for (l2, i2) in hd.all_vars() {
+                    if l2 != *list {
+                        let o2 = hd.offset(l2, i2);
+                        let w2 = hd.lists[l2][i2];
+                        if o2 < off + w && off < o2 + w2 {
+                            hd.fresh[l2][i2] = false;
+                        }
+                    }
+                }
+                hd.fresh[*list][*idx] = true;
+                hd.cur = Some(*list);
+                let mut class = format!("{}:{}", kind, if val.len() == w { "full-width" } else { "shorter-than-field" });
+                if hd.lists.len() > 1 {
+                    class.push_str(if *list == 0 { "+first-of-several-lists" } else { "+overlay-list" });
+                }
                 Ok(ok_outcome(class, false))
             }
             Op::Put { h, rec } => {
@@ -721,20 +825,27 @@ impl Model {
                 if hd.mode != Mode::Random {
                     return Ok(err_outcome(kind, "sequential-handle", ErrSet::FileError));
                 }
-                if hd.fields.is_none() {
-                    return Err("PUT without FIELD");
-                }
+                let Some(cur) = hd.cur else { return Err("PUT without FIELD") };
                 if *rec < 1 {
                     return Err("record number below 1");
                 }
-                if hd.buf.iter().any(|b| b.is_none()) {
-                    return Err("PUT of a field variable that was never assigned");
+                if hd.fresh[cur].iter().any(|f| !f) {
+                    return Err("PUT while a variable of the FIELD list last addressed is unassigned or out of date");
                 }
                 hd.puts += 1;
-                let vals: Vec<Vec<u8>> = hd.buf.iter().map(|b| b.clone().unwrap()).collect();
+                // the record = the buffer; bytes behind the list the record was composed through are not pinned
+                let total = hd.total(cur);
+                let mut cells = hd.rbuf.clone();
+                for c in cells.iter_mut().skip(total) {
+                    *c = Cell::Any;
+                }
                 let over = hd.recs.contains_key(rec);
-                hd.recs.insert(*rec, (vals, hd.puts));
-                Ok(ok_outcome(format!("{}:{}", kind, if over { "overwrite-record" } else { "new-record" }), true))
+                hd.recs.insert(*rec, (cells, hd.puts));
+                let mut class = format!("{}:{}", kind, if over { "overwrite-record" } else { "new-record" });
+                if hd.lists.len() > 1 {
+                    class.push_str(if cur == 0 { "+through-first-of-several-lists" } else { "+through-overlay-list" });
+                }
+                Ok(ok_outcome(class, true))
             }
             Op::Get { h, rec } => {
                 let Some(hd) = self.hd[*h].as_mut() else {
@@ -743,17 +854,30 @@ impl Model {
                 if hd.mode != Mode::Random {
                     return Ok(err_outcome(kind, "sequential-handle", ErrSet::FileError));
                 }
-                let Some(fields) = &hd.fields else { return Err("GET without FIELD") };
-                let Some((vals, seq)) = hd.recs.get(rec) else { return Err("GET of a record not written in this session") };
-                let interleaved = hd.recs.iter().any(|(r, (_, s))| r != rec && s > seq);
+                if hd.lists.is_empty() {
+                    return Err("GET without FIELD");
+                }
+                let Some((cells, seq)) = hd.recs.get(rec).cloned() else { return Err("GET of a record not written in this session") };
+                let interleaved = hd.recs.iter().any(|(r, (_, s))| r != rec && *s > seq);
                 if interleaved {
                     self.chains.put_get_interleaved = true;
                 }
-                let n = fields.len();
-                let specs = vals.iter().map(|v| ValSpec { cmp: Cmp::Pad, text: v.clone() }).collect();
-                hd.buf = vals.iter().map(|v| Some(v.clone())).collect();
-                let class = format!("{}:{}", kind, if interleaved { "other-record-written-since" } else { "latest-put" });
-                Ok(Outcome { err: None, vals: specs, class, viol: None, nfields: n, substantive: true })
+                // the record goes into the buffer; EVERY variable of EVERY list is a window of it
+                hd.rbuf = cells.clone();
+                for f in hd.fresh.iter_mut().flatten() {
+                    *f = true;
+                }
+                let show = hd.all_vars();
+                let specs: Vec<ValSpec> = show.iter().map(|(l, i)| ValSpec { cmp: Cmp::Mask, text: cells_to_mask(hd.var_cells(*l, *i)) }).collect();
+                let mut class = format!("{}:{}", kind, if interleaved { "other-record-written-since" } else { "latest-put" });
+                if hd.lists.len() > 1 {
+                    self.chains.get_through_overlay = true;
+                    class.push_str(&format!("+{}-field-lists", hd.lists.len()));
+                }
+                if hd.field_stmts > hd.lists.len() {
+                    class.push_str("+field-repeated");
+                }
+                Ok(Outcome { err: None, vals: specs, class, viol: None, nfields: show.len(), show, substantive: true })
             }
         }
     }
@@ -808,13 +932,14 @@ fn bstr(v: &[u8]) -> String {
 
 impl ValSpec {
     fn to_json(&self) -> Value {
-        json!({"cmp": match self.cmp { Cmp::Exact => "exact", Cmp::RTrim => "rtrim", Cmp::Pad => "pad" }, "text": bstr(&self.text)})
+        json!({"cmp": match self.cmp { Cmp::Exact => "exact", Cmp::RTrim => "rtrim", Cmp::Pad => "pad", Cmp::Mask => "mask" }, "text": bstr(&self.text)})
     }
     fn from_json(v: &Value) -> ValSpec {
         ValSpec {
             cmp: match v["cmp"].as_str().unwrap_or("exact") {
                 "rtrim" => Cmp::RTrim,
                 "pad" => Cmp::Pad,
+                "mask" => Cmp::Mask,
                 _ => Cmp::Exact,
             },
             text: v["text"].as_str().unwrap_or("").as_bytes().to_vec(),
@@ -825,6 +950,25 @@ impl ValSpec {
             Cmp::Exact => obs == &self.text[..],
             Cmp::RTrim => rtrim(obs, b" ") == rtrim(&self.text, b" "),
             Cmp::Pad => rtrim(obs, b" \0") == rtrim(&self.text, b" \0"),
+            Cmp::Mask => {
+                let is_pad = |b: u8| b == b' ' || b == 0;
+                (0..obs.len().max(self.text.len())).all(|i| match (self.text.get(i), obs.get(i)) {
+                    (Some(&MASK_ANY), _) => true,
+                    (Some(&MASK_PAD), None) => true,
+                    (Some(&MASK_PAD), Some(o)) => is_pad(*o),
+                    (Some(e), Some(o)) => e == o,
+                    (Some(_), None) => false,
+                    (None, Some(o)) => is_pad(*o),
+                    (None, None) => true,
+                })
+            }
+        }
+    }
+    /// for messages: padding shown as `~`, unpinned bytes as `?`
+    fn display(&self) -> String {
+        match self.cmp {
+            Cmp::Mask => bstr(&self.text.iter().map(|b| match *b { MASK_PAD => b'~', MASK_ANY => b'?', x => x }).collect::<Vec<u8>>()),
+            _ => bstr(&self.text),
         }
     }
 }
@@ -1087,7 +1231,7 @@ fn check_case(case: &Case) -> CheckOut {
             break;
         }
         if let (None, Some(vals)) = (&step.err, &step.vals) {
-            let exp_line = format!("{}{}]", vprefix, vals.iter().map(|v| bstr(&v.text)).collect::<Vec<_>>().join("]["));
+            let exp_line = format!("{}{}]", vprefix, vals.iter().map(|v| v.display()).collect::<Vec<_>>().join("]["));
             let ok = match vline {
                 None => false,
                 Some(l) => {
@@ -1195,7 +1339,7 @@ fn build_case(h: &Hist, mode: PMode) -> Result<Built, &'static str> {
     for (i, op) in h.ops.iter().enumerate() {
         let k = i + 1;
         let out = m.apply(op)?;
-        let (stmt, vstmt) = render_op(op, k, out.nfields);
+        let (stmt, vstmt) = render_op(op, k, out.nfields, &out.show);
         src.push_str(&format!("PRINT \"K{}:\"\n{}\n", k, stmt));
         let mut vals = None;
         let last_of_last = mode == PMode::Last && k == n;
@@ -1363,6 +1507,20 @@ fn gen_widths(t: &mut Tape, reclen: usize) -> Vec<usize> {
     w
 }
 
+/// Widths of an overlay list: a partition of its own, preferably with boundaries that differ from
+/// the lists declared so far (so that its variables straddle theirs).
+fn gen_overlay_widths(t: &mut Tape, reclen: usize, lists: &[Vec<usize>]) -> Vec<usize> {
+    let mut w = gen_widths(t, reclen);
+    if lists.contains(&w) {
+        // same layout under other names is still an overlay; most of the time make it differ
+        if t.chance(3, 4) {
+            let whole: usize = w.iter().sum();
+            w = if w.len() > 1 { vec![whole] } else if whole >= 2 { vec![whole / 2, whole - whole / 2] } else { w };
+        }
+    }
+    w
+}
+
 fn gen_lset_val(t: &mut Tape, width: usize) -> String {
     const ALPHA: &[u8] = b"abXY01 z.";
     let len = if t.chance(1, 4) { t.choose(width + 1) } else { width };
@@ -1460,39 +1618,59 @@ fn gen_progress(t: &mut Tape, m: &Model, h: usize) -> Option<Op> {
                 })
             }
             Mode::Output | Mode::Append => Some(if t.chance(1, 6) { Op::Close(vec![h]) } else { gen_print(t, h, hd.col) }),
-            Mode::Random => match &hd.fields {
-                None => Some(Op::Field { h, widths: gen_widths(t, hd.reclen) }),
-                Some(w) => {
-                    let unset: Vec<usize> = (0..w.len()).filter(|i| hd.buf[*i].is_none()).collect();
-                    if let Some(i) = unset.first() {
-                        return Some(Op::Lset { h, idx: *i, val: gen_lset_val(t, w[*i]) });
-                    }
-                    let recs: Vec<i64> = hd.recs.keys().cloned().collect();
-                    // the buffer still holds what some record holds: change a field first, so that
-                    // records differ from each other
-                    let stale = hd.recs.values().any(|(v, _)| v.iter().zip(hd.buf.iter()).all(|(a, b)| Some(a) == b.as_ref()));
-                    if stale && !t.chance(1, 4) {
-                        let i = t.choose(w.len());
-                        let mut val = gen_lset_val(t, w[i]);
-                        if Some(val.as_bytes()) == hd.buf[i].as_deref() && !val.is_empty() {
-                            // force a change
-                            let first = if val.as_bytes()[0] == b'q' { "r" } else { "q" };
-                            val.replace_range(0..1, first);
-                        }
-                        return Some(Op::Lset { h, idx: i, val });
-                    }
-                    Some(match t.choose(8) {
-                        0 => {
-                            let i = t.choose(w.len());
-                            Op::Lset { h, idx: i, val: gen_lset_val(t, w[i]) }
-                        }
-                        1 | 2 | 3 => Op::Put { h, rec: 1 + t.choose(5) as i64 },
-                        4 | 5 | 6 if !recs.is_empty() => Op::Get { h, rec: recs[t.choose(recs.len())] },
-                        7 if recs.len() >= 2 => Op::Close(vec![h]),
-                        _ => Op::Put { h, rec: 1 + t.choose(5) as i64 },
-                    })
+            Mode::Random => {
+                if hd.lists.is_empty() {
+                    return Some(Op::Field { h, widths: gen_widths(t, hd.reclen), list: 0 });
                 }
-            },
+                let nl = hd.lists.len();
+                // one more FIELD statement on the open file: an overlay of the record buffer with
+                // variables and widths of its own, or an earlier FIELD statement once more
+                if hd.field_stmts < MAX_LISTS + 1 && t.chance(1, 12) {
+                    if nl < MAX_LISTS && !t.chance(1, 4) {
+                        return Some(Op::Field { h, widths: gen_overlay_widths(t, hd.reclen, &hd.lists), list: nl });
+                    }
+                    let j = t.choose(nl);
+                    return Some(Op::Field { h, widths: hd.lists[j].clone(), list: j });
+                }
+                // the list to compose the next record through: mostly the one addressed last
+                let cur = hd.cur.unwrap_or(0);
+                let tl = if nl > 1 && t.chance(1, 4) { t.choose(nl) } else { cur };
+                let w = &hd.lists[tl];
+                let cur_val = |i: usize| -> Vec<Cell> { hd.var_cells(tl, i).to_vec() };
+                let unset: Vec<usize> = (0..w.len()).filter(|i| !hd.fresh[tl][*i]).collect();
+                let recs: Vec<i64> = hd.recs.keys().cloned().collect();
+                if !unset.is_empty() && !recs.is_empty() && t.chance(1, 2) {
+                    // a GET brings every variable of every list up to date
+                    return Some(Op::Get { h, rec: recs[t.choose(recs.len())] });
+                }
+                if let Some(i) = unset.first() {
+                    return Some(Op::Lset { h, list: tl, idx: *i, val: gen_lset_val(t, w[*i]) });
+                }
+                // the buffer still holds what some record holds: change a field first, so that
+                // records differ from each other
+                let total = hd.total(tl);
+                let stale = hd.recs.values().any(|(v, _)| v[..total] == hd.rbuf[..total]);
+                if tl != cur || (stale && !t.chance(1, 4)) {
+                    let i = t.choose(w.len());
+                    let mut val = gen_lset_val(t, w[i]);
+                    if lset_cells(val.as_bytes(), w[i]) == cur_val(i) && !val.is_empty() {
+                        // force a change
+                        let first = if val.as_bytes()[0] == b'q' { "r" } else { "q" };
+                        val.replace_range(0..1, first);
+                    }
+                    return Some(Op::Lset { h, list: tl, idx: i, val });
+                }
+                Some(match t.choose(8) {
+                    0 => {
+                        let i = t.choose(w.len());
+                        Op::Lset { h, list: tl, idx: i, val: gen_lset_val(t, w[i]) }
+                    }
+                    1 | 2 | 3 => Op::Put { h, rec: 1 + t.choose(5) as i64 },
+                    4 | 5 | 6 if !recs.is_empty() => Op::Get { h, rec: recs[t.choose(recs.len())] },
+                    7 if recs.len() >= 2 => Op::Close(vec![h]),
+                    _ => Op::Put { h, rec: 1 + t.choose(5) as i64 },
+                })
+            }
         },
     }
 }
@@ -1555,7 +1733,7 @@ fn gen_violation(t: &mut Tape, m: &Model) -> Option<Op> {
                     2 => Op::Eof { h },
                     3 => Op::Get { h, rec: 1 },
                     4 => Op::Put { h, rec: 1 },
-                    _ => Op::Field { h, widths: vec![4] },
+                    _ => Op::Field { h, widths: vec![4], list: 0 },
                 }
             }
             // reading from an output handle
@@ -1573,7 +1751,7 @@ fn gen_violation(t: &mut Tape, m: &Model) -> Option<Op> {
                 match t.choose(5) {
                     0 | 1 => Op::Get { h, rec: 1 },
                     2 | 3 => Op::Put { h, rec: 1 },
-                    _ => Op::Field { h, widths: vec![4] },
+                    _ => Op::Field { h, widths: vec![4], list: 0 },
                 }
             }
             // KILL / NAME of what is not there
@@ -1709,6 +1887,7 @@ fn record_classes(sh: &mut Shard, b: &Built, h: &Hist) {
         (c.write_reopen_read, "chain:write-close-reopen-read"),
         (c.append_after_output, "chain:append-after-output"),
         (c.put_get_interleaved, "chain:put-get-with-other-record-between"),
+        (c.get_through_overlay, "chain:get-through-several-field-lists"),
         (c.violation_then_success, "chain:violation-then-successful-operations"),
     ] {
         if flag {
@@ -2010,7 +2189,7 @@ impl Prop for C18 {
         "C18"
     }
     fn rule(&self) -> &'static str {
-        "Generator 1: one case = one HISTORY of 3-26 file operations over handles #1-#3, three scratch file names (each initially absent or holding a 0-4 line text payload: fields with commas, interior/leading/trailing blanks, empty fields and lines, numbers, last line with or without CR LF) and one name in a directory that does not exist: OPEN FOR INPUT/OUTPUT/APPEND/RANDOM LEN=n, PRINT #n (1-3 string / small integer items, `;` and `,`, trailing separator), INPUT #n (1-3 variables, $ % & ! #), LINE INPUT #n, EOF(n), CLOSE #n / CLOSE #n,#m / CLOSE, KILL, NAME, FIELD, LSET, PUT, GET, and protocol violations chosen from the state (OPEN on a handle in use, OPEN FOR INPUT of a missing file, OPEN/KILL/NAME in a missing directory, reading past the end with one or several variables, INPUT#/LINE INPUT#/EOF/GET/PUT/FIELD on a closed handle, reading from an output handle, GET/PUT/FIELD on a sequential handle, KILL/NAME of a missing file; PRINT # on a closed or input handle only as the last operation). The history is steered by the model (mostly meaningful continuations) and rendered as ONE program: `ON ERROR GOTO h`, three module-level sentinels, per operation `PRINT \"K<i>:\"`, the statement, for reads `PRINT \"V<i>[..]\"`; epilogue CLOSE + sentinels; handler `PRINT \"E\"; ERR: RESUME NEXT`. The harness creates the scratch files before and reads their final bytes after the run. Oracle: a model of the store (name -> bytes) and handle table (mode, read position, print column, record length, FIELD layout, records PUT in this session) gives per operation success or the demanded error (55 / 53 / 62 exactly; any code 50..76 for closed / wrong-mode handles and missing or uncreatable names), every value read, the sentinel line and the final bytes of every file. For one in three histories with a violation (and for every PRINT # violation) the prefix up to the first violation is also run WITHOUT handler, the violation being the last statement, and the run must end with the demanded error. Generator 2: a text payload is read by the same 1-8 INPUT / LINE INPUT statements once from a file FOR INPUT and once from standard input; the printed values must agree. A history is NON-TRIVIAL when it holds a write-close-reopen-read chain on one name, or PRINT # through APPEND onto text written through OUTPUT, or a GET of a record after another record was PUT since, or a violation followed by further successful data operations (distinct by hash of program text + initial files); a console case when it has >= 2 reads."
+        "Generator 1: one case = one HISTORY of 3-26 file operations over handles #1-#3, three scratch file names (each initially absent or holding a 0-4 line text payload: fields with commas, interior/leading/trailing blanks, empty fields and lines, numbers, last line with or without CR LF) and one name in a directory that does not exist: OPEN FOR INPUT/OUTPUT/APPEND/RANDOM LEN=n, PRINT #n (1-3 string / small integer items, `;` and `,`, trailing separator), INPUT #n (1-3 variables, $ % & ! #), LINE INPUT #n, EOF(n), CLOSE #n / CLOSE #n,#m / CLOSE, KILL, NAME, FIELD (up to four FIELD statements per open RANDOM file: the first list, up to two OVERLAY lists with variables and widths of their own, and earlier FIELD statements repeated verbatim), LSET (through a variable of any list), PUT, GET (after which every variable of every FIELD list of the handle is printed), and protocol violations chosen from the state (OPEN on a handle in use, OPEN FOR INPUT of a missing file, OPEN/KILL/NAME in a missing directory, reading past the end with one or several variables, INPUT#/LINE INPUT#/EOF/GET/PUT/FIELD on a closed handle, reading from an output handle, GET/PUT/FIELD on a sequential handle, KILL/NAME of a missing file; PRINT # on a closed or input handle only as the last operation). The history is steered by the model (mostly meaningful continuations) and rendered as ONE program: `ON ERROR GOTO h`, three module-level sentinels, per operation `PRINT \"K<i>:\"`, the statement, for reads `PRINT \"V<i>[..]\"`; epilogue CLOSE + sentinels; handler `PRINT \"E\"; ERR: RESUME NEXT`. The harness creates the scratch files before and reads their final bytes after the run. Oracle: a model of the store (name -> bytes) and handle table (mode, read position, print column, record length, all FIELD lists in effect, ONE record buffer per open RANDOM file of which every field variable of every list is a window starting from byte 0 of the list, records PUT in this session as buffer snapshots) gives per operation success or the demanded error (55 / 53 / 62 exactly; any code 50..76 for closed / wrong-mode handles and missing or uncreatable names), every value read, the sentinel line and the final bytes of every file. For one in three histories with a violation (and for every PRINT # violation) the prefix up to the first violation is also run WITHOUT handler, the violation being the last statement, and the run must end with the demanded error. Generator 2: a text payload is read by the same 1-8 INPUT / LINE INPUT statements once from a file FOR INPUT and once from standard input; the printed values must agree. A history is NON-TRIVIAL when it holds a write-close-reopen-read chain on one name, or PRINT # through APPEND onto text written through OUTPUT, or a GET of a record after another record was PUT since, or a GET that fills the variables of two or more FIELD lists, or a violation followed by further successful data operations (distinct by hash of program text + initial files); a console case when it has >= 2 reads."
     }
     fn assumptions(&self) -> Vec<&'static str> {
         vec![
@@ -2018,7 +2197,8 @@ impl Prop for C18 {
             "INPUT # field = leading blanks skipped, up to the next comma / CR LF / end of file, terminator consumed; trailing blanks of a string field are not pinned (compared after trimming blanks); numeric variables only read fields that are plain integers of up to 3 digits; a blank-only tail at the end of the file is not pinned (not generated); payloads use CR LF line ends only",
             "EOF(n) is true exactly when no byte is left, and prints as -1 / 0",
             "the values of variables after a FAILED read are not pinned (not printed)",
-            "RANDOM files: only records PUT in the same open session are read back; the bytes on disk, GET of unwritten records, PUT without FIELD or with never-assigned field variables, a second FIELD, LSET values longer than the field, and the padding of shorter values (blanks vs NULs; compared after trimming both) are not pinned: not generated / compared leniently; a file that was opened FOR RANDOM is afterwards only required to exist",
+            "RANDOM files: only records PUT in the same open session are read back; the bytes on disk, GET of unwritten records, PUT without FIELD or with never-assigned field variables, LSET values longer than the field, and the padding of shorter values (blank or NUL accepted at exactly the padding positions, also inside an overlay variable; bytes missing at the end of a variable count as padding) are not pinned: not generated / compared leniently; a file that was opened FOR RANDOM is afterwards only required to exist",
+            "several FIELD statements on one open file (documented QBasic: any number may be in effect at once, each describes the record buffer from its first byte): after GET every variable of every list must hold its window of the record that was PUT. A PUT is generated only when the list addressed by the latest LSET (or declared by a later FIELD) has all its variables up to date, i.e. each was assigned by LSET or GET after the last LSET through an overlapping variable of another list, so that the variables' own values and the shared buffer agree on what the record is; mixes where they could differ (LSET through two overlapping lists before one PUT) are not pinned by the statement and not generated. Bytes of a record behind the end of the list it was composed through are not pinned (never compared). A repeated FIELD names the same variables with the same widths; FIELD that gives existing variables another layout, lists wider than LEN, and more than three lists are not generated; field variables are only printed right after a successful GET",
             "not generated because the statement is silent: two handles on one file unless both FOR INPUT, KILL/NAME of an open file, NAME onto an existing file, sequential statements (PRINT#/INPUT#/LINE INPUT#/EOF) on a RANDOM handle (legal in QBasic), OPEN on a handle in use combined with a second error condition",
             "OPEN FOR INPUT of a name in a missing directory may raise 53 or 76 (QBasic: Path not found); KILL/NAME of missing files and OUTPUT/APPEND/RANDOM in a missing directory must raise some file error 50..76",
             "files still open for writing when a program without handler dies are not compared (the statement says `once closed`)",
